@@ -399,10 +399,10 @@ func c20Mgmt(endpoint, resolver string, skip, ca, client bool) string {
 
 type c20Args struct {
 	ctlr, class, gateway, config, service, mport, hport, lock *string
-	plus                                                       bool
-	secret, endpoint, resolver, csecret, casecret              *string
-	telemetry                                                  string
-	mdisable, hdisable                                         bool
+	plus                                                      bool
+	secret, endpoint, resolver, csecret, casecret             *string
+	telemetry                                                 string
+	mdisable, hdisable                                        bool
 }
 
 // c20RunStatic executes the real static-mode command. Stage 0: cobra/pflag refused the command line
